@@ -95,6 +95,8 @@ def run_one(rng, counters):
 
             gvcf.hostilize(rng, sim.doc, prephase=opts["prephase"], allow_missing=False)
             sim.doc.write(sim.vcf)
+        if rng.random() < 0.12:
+            opts["read_merging"] = True  # --merge-reads: the solver then sees merged reads; the components are those of what it sees
         ro = {k: v for k, v in opts.items() if k not in ("ped", "read_list", "prephase")}
         if ro["reference"] == "FASTA":
             ro["reference"] = sim.fasta
